@@ -32,7 +32,7 @@ type check struct {
 	cases  []caseT
 	nMark  int64
 	tier   string
-	svgs   []string // SVG documents with reference graphs among their definitions
+	svgs   []string  // SVG documents with reference graphs among their definitions
 	nests  []svgNest // SVG documents with every container holding every short sequence of child kinds
 }
 
@@ -272,14 +272,22 @@ func (c *check) Init(tier string, seed int64) engine.Space {
 	for _, x := range configs {
 		cfgNames = append(cfgNames, x.name)
 	}
+	ctxSlots, ctxMenus := map[string][]string{}, map[string][]string{}
 	for _, x := range skeletons {
 		skNames = append(skNames, x.name)
+		if len(x.extra) > 0 {
+			ctxSlots[x.name] = x.extra
+		}
+		for _, m := range x.local {
+			ctxMenus[x.name] = append(ctxMenus[x.name], m.css)
+		}
 	}
 	return engine.Space{
 		Units: c.nMark + int64(len(c.cases)), Chunk: 24, Level: "model_checking", BudgetS: budget, CaseCPUs: 10,
-		Rule: "markup: every sequence of HTML tokens up to the length bound; skeletons: every document with 0, 1 (all configurations) and 2 (listed geometries; quick: reduced menu) declarations from the menu placed on the style slots of 14 skeletons; every case is rendered and written by the real code; a case is non-trivial when the document produced at least one page with at least one drawing call",
+		Rule: "markup: every sequence of HTML tokens up to the length bound; SVG: every reference graph among definitions, and every container element holding every sequence of child kinds up to the length bound; skeletons: every document with 0, 1 (all configurations) and 2 (listed geometries; quick: reduced menu, element slots) declarations from the menu (global menu + the skeleton's context menu) placed on the style slots of the skeletons (4 elements, html, body, and the skeleton's context slots: pseudo-elements, margin boxes, footnote area); every case is rendered and written by the real code; a case is non-trivial when the document produced at least one page with at least one drawing call",
 		Bounds: map[string]any{"markup_tokens": markupTokens, "markup_max_len": mlen, "skeletons": skNames, "declaration_menu": menuNames,
-			"configurations": cfgNames, "deviation_levels": "0,1 on all configurations; 2 on geometries " + fmt.Sprint(geoms), "slots_per_skeleton": "4 element slots + html + body"},
+			"configurations": cfgNames, "deviation_levels": "0,1 on all configurations; 2 on geometries " + fmt.Sprint(geoms), "slots_per_skeleton": "4 element slots + html + body + context slots", "context_slots": ctxSlots, "context_menus": ctxMenus,
+			"svg_nesting": fmt.Sprintf("%d documents (17 containers x child sequences of length <= %d over 11 kinds)", len(c.nests), map[bool]int{false: 2, true: 3}[tier == "thorough"])},
 		Assumptions: []string{
 			"documents larger than 4 slots / 2 deviations, and fonts other than Ahem, are not explored",
 			"'never loops forever' is decided up to a page-progress bound (page number > 60, for documents of at most ~12 lines) and a CPU budget of 10 s per case (≈ 1000× the median render)",
@@ -375,6 +383,24 @@ func (c *check) Run(u int64, ctx *engine.Ctx) {
 	cs := c.caseOf(u)
 	html, o, feats := c.build(&cs)
 	desc := fmt.Sprintf("F{%s} hints=%v engine=%s zoom=%g html=%s", strings.Join(feats, "|"), o.Hints, o.Engine, o.Zoom, html)
+	if f := os.Getenv("C01_DEV_FILTER"); f != "" { // DEVONLY
+		hit := false
+		for _, alt := range strings.Split(f, ",") {
+			hit = hit || strings.Contains(strings.Join(feats, "|"), alt)
+		}
+		if !hit {
+			ctx.Case(false, "filtered")
+			return
+		}
+		if dump := os.Getenv("C01_DEV_DUMP"); dump != "" { // DEVONLY
+			if fh, err := os.OpenFile(dump, os.O_APPEND|os.O_CREATE|os.O_WRONLY, 0o644); err == nil {
+				fmt.Fprintf(fh, "%s\x00%s\x00%s\n", strings.Join(feats, "|"), o.Engine, strings.ReplaceAll(html, "\n", " "))
+				fh.Close()
+			}
+			ctx.Case(false, "dumped")
+			return
+		}
+	}
 	if hasGrid(feats) {
 		ctx.SetCaseBudget(2) // inside the known non-terminating region: the verdict cannot change the outcome
 	} else {
@@ -403,6 +429,10 @@ func (c *check) Run(u int64, ctx *engine.Ctx) {
 	}
 	// skipping clause: an invalid declaration is dropped with a warning and the rest renders identically
 	onSVG := cs.fam == 's' && skeletons[cs.sk].name == "replaced" && len(cs.devs) == 1 && cs.devs[0].slot == 2
+	// (in a style sheet an unbalanced function legitimately swallows the rules that follow: not asserted on the context slots)
+	if len(cs.devs) == 1 && cs.devs[0].slot >= 6 && strings.Count(declAt(cs.sk, cs.devs[0].decl).css, "(") != strings.Count(declAt(cs.sk, cs.devs[0].decl).css, ")") {
+		onSVG = true
+	}
 	if len(cs.devs) == 1 && declAt(cs.sk, cs.devs[0].decl).invalid && !onSVG {
 		base := cs
 		base.devs = nil
@@ -484,6 +514,89 @@ func svgRefDocs(three bool) []string {
 			out = append(out, svg)
 			if g%3 == 0 { // also as an image resource
 				out = append(out, `<img src="data:image/svg+xml;base64,`+base64.StdEncoding.EncodeToString([]byte(svg))+`">`)
+			}
+		}
+	}
+	return out
+}
+
+// svgNest is one document of the SVG nesting family.
+type svgNest struct {
+	doc   string
+	feats []string
+}
+
+// svgNestDocs enumerates, for every SVG container element (text containers inside and outside <text>,
+// structural containers, definitions that are rendered through a reference), every sequence of at most
+// maxLen children taken from a menu of child kinds (character data, shapes, groups, text spans, text
+// roots, <use> of a shape / of a text, gradient stops, nested <svg>): children of the expected and of
+// the wrong kind, in first and later position.
+func svgNestDocs(three bool) []svgNest {
+	const txt = ` x="1" y="8" font-family="ahem" font-size="4"`
+	containers := []struct{ name, tmpl string }{
+		{"text", `<text` + txt + `>%s</text>`},
+		{"text[text-anchor=middle]", `<text text-anchor="middle"` + txt + `>%s</text>`},
+		{"text>tspan", `<text` + txt + `><tspan>%s</tspan></text>`},
+		{"tspan", `<tspan` + txt + `>%s</tspan>`},
+		{"text>textPath", `<defs><path id="p" d="M0 5L9 5"/></defs><text` + txt + `><textPath href="#p">%s</textPath></text>`},
+		{"a", `<a href="#x">%s</a>`},
+		{"g", `<g>%s</g>`},
+		{"svg", `<svg width="8" height="8">%s</svg>`},
+		{"switch", `<switch>%s</switch>`},
+		{"defs", `<defs>%s</defs>`},
+		{"use>text", `<defs><text id="u"` + txt + `>%s</text></defs><use href="#u"/>`},
+		{"use>symbol", `<symbol id="u">%s</symbol><use href="#u"/>`},
+		{"marker", `<defs><marker id="m" markerWidth="2" markerHeight="2">%s</marker></defs><path d="M1 1L7 7" stroke="black" marker-start="url(#m)"/>`},
+		{"pattern", `<defs><pattern id="m" width="4" height="4">%s</pattern></defs><rect width="8" height="8" fill="url(#m)"/>`},
+		{"mask", `<defs><mask id="m">%s</mask></defs><rect width="8" height="8" mask="url(#m)"/>`},
+		{"clipPath", `<defs><clipPath id="m">%s</clipPath></defs><rect width="8" height="8" clip-path="url(#m)"/>`},
+		{"linearGradient", `<defs><linearGradient id="m">%s</linearGradient></defs><rect width="8" height="8" fill="url(#m)"/>`},
+	}
+	kids := []struct{ name, src string }{
+		{"chars", "x"},
+		{"rect", `<rect width="3" height="3"/>`},
+		{"g", `<g><rect width="2" height="2"/></g>`},
+		{"tspan", `<tspan>y</tspan>`},
+		{"tspan-empty", `<tspan/>`},
+		{"text", `<text x="1" y="4" font-family="ahem" font-size="4">z</text>`},
+		{"use-rect", `<use href="#r"/>`},
+		{"use-text", `<use href="#t"/>`},
+		{"stop", `<stop offset="0" stop-color="red"/>`},
+		{"svg", `<svg width="4" height="4"/>`},
+		{"marker", `<marker id="k"><rect width="1" height="1"/></marker>`},
+	}
+	maxLen := 2
+	if three {
+		maxLen = 3
+	}
+	const pre = `<svg xmlns="http://www.w3.org/2000/svg" xmlns:xlink="http://www.w3.org/1999/xlink" width="10" height="10"><defs><rect id="r" width="2" height="2"/><text id="t" font-family="ahem" font-size="4">w</text></defs>`
+	var out []svgNest
+	// shortest child sequences first, over all containers
+	for l := 0; l <= maxLen; l++ {
+		total := 1
+		for i := 0; i < l; i++ {
+			total *= len(kids)
+		}
+		for g := 0; g < total; g++ {
+			var inner strings.Builder
+			var kf []string
+			x := g
+			for i := 0; i < l; i++ {
+				k := kids[x%len(kids)]
+				x /= len(kids)
+				inner.WriteString(k.src)
+				kf = append(kf, "svg-child:"+k.name)
+			}
+			if l == 0 {
+				kf = append(kf, "svg-child:none")
+			}
+			for _, ct := range containers {
+				svg := pre + fmt.Sprintf(ct.tmpl, inner.String()) + `</svg>`
+				feats := append([]string{"svg-nest", "svg:" + ct.name}, kf...)
+				out = append(out, svgNest{svg, feats})
+				if l <= 1 { // also as an image resource
+					out = append(out, svgNest{`<img src="data:image/svg+xml;base64,` + base64.StdEncoding.EncodeToString([]byte(svg)) + `">`, append([]string{"svg-as-image"}, feats...)})
+				}
 			}
 		}
 	}
